@@ -393,3 +393,37 @@ def text_through_helpers(prog, fn, e, depth=2):
                 if isinstance(r, ast.Return) and r.value is not None:
                     t += ' ' + text_through_helpers(prog, h, r.value, depth - 1)
     return t
+
+
+def origins_through_helpers(prog, fn, expr, at_node, depth=2):
+    """The expressions feeding `expr` at `at_node` of fn (backward slice on reaching definitions), extended through the
+    private helpers of the unit: a helper call is followed into the helper's returned expressions and their origins,
+    with the call's arguments substituted for the helper's parameters (extract-method invariance of origin clauses)."""
+    import copy
+    from ..flow import Slice
+    from ..cfg import build_cfg
+    sl = Slice(fn)
+    out = [expr] + [v for _, v, _, _ in sl.origins(expr, at_node) if v is not None]
+    if depth <= 0:
+        return out
+    hs = {h.name: h for h in unit_functions(prog, fn)[1:]}
+    seen = set()
+    for o in list(out):
+        for c in ast.walk(o):
+            h = hs.get(call_name(c)) if isinstance(c, ast.Call) else None
+            if h is None or id(c) in seen:
+                continue
+            seen.add(id(c))
+            hp = [q for q in h.params if q not in ('self', 'cls')] if isinstance(c.func, ast.Attribute) and \
+                h.params and h.params[0] in ('self', 'cls') else list(h.params)
+            sub = {q: a for q, a in zip(hp, c.args)}
+            sub.update({k.arg: k.value for k in c.keywords if k.arg})
+
+            class S(ast.NodeTransformer):
+                def visit_Name(self, node):
+                    return copy.deepcopy(sub[node.id]) if node.id in sub and isinstance(node.ctx, ast.Load) else node
+            hcfg = build_cfg(h)
+            for r in (x for x in walk_fn(h) if isinstance(x, ast.Return) and x.value is not None):
+                for v in origins_through_helpers(prog, h, r.value, hcfg.node_of(r), depth - 1):
+                    out.append(S().visit(copy.deepcopy(v)))
+    return out
